@@ -303,6 +303,27 @@ FLAG_DIMS = {"hwkey": True, "keystore": "full", "reloc": "2x1,5", "imgver": 1, "
 SMALL_GROUPS = [("keystore", "reloc")]
 
 
+def digest_product(t: dict) -> list:
+    """Manifest-digest classes: {root curve} x {ISK absent / P-256 / P-384} x {digest none / automatic}; the
+    option sets with >= 2 departures (the others are in the k <= 1 lattice)."""
+    if not has(t, "ManifestDigest"):
+        return []
+    out = []
+    for curve in ("p256", "p384"):
+        for isk in ("none", "p256", "p384"):
+            for digest in ("none", "auto"):
+                o = {}
+                if curve != "p256":
+                    o["curve"] = curve
+                if isk != "none":
+                    o["isk"] = isk
+                if digest != "none":
+                    o["digest"] = digest
+                if len(o) >= 2:
+                    out.append(o)
+    return out
+
+
 def flag_product(t: dict) -> list:
     """Option sets (>= 2 departures; the single ones are in the k <= 1 lattice) of the flag product."""
     import itertools
@@ -927,6 +948,46 @@ HISTORY_STEPS = {
 }
 
 
+STEPWISE = {"certv1_stepwise_rkh": {"depth": 1, "roots": "2/0"},
+            "certv1_stepwise_chain": {"depth": 2, "roots": "3/1"}}
+
+
+def stepwise_cert_v1(obj: Any, o: dict) -> None:
+    """Build the certificate block with the step-by-step API of tests/image/mbi/test_mbi.py
+    (add_certificate / set_root_key_hash) on the live MBI object, reading cert_block.export(),
+    mbi.total_len and mbi.rkth between the builder calls (a read may be refused while the block is
+    incomplete)."""
+    from spsdk.crypto.certificate import Certificate
+    from spsdk.exceptions import SPSDKError
+    from spsdk.utils.crypto.cert_blocks import CertBlockV1
+
+    idx = fixtures.cert_index()
+    bits, depth = o["rsa"], o["depth"]
+    count, used = (int(x) for x in o["roots"].split("/"))
+    chain = [Certificate.load(fixtures.path(c + ".der")) for c in idx[f"rsa{bits}_root{used}"][f"d{depth}"]["chain"]]
+
+    def read() -> None:
+        for fn in (lambda: cb.export(), lambda: obj.total_len, lambda: obj.rkth):
+            try:
+                fn()
+            except SPSDKError:
+                pass
+
+    cb = CertBlockV1(build_number=o["build"])
+    obj.cert_block = cb
+    cb.add_certificate(chain[0])
+    cb.set_root_key_hash(used, chain[0])
+    read()
+    for c in chain[1:]:
+        cb.add_certificate(c)
+        read()
+    for r in range(count):
+        if r != used:
+            other = Certificate.load(fixtures.path(idx[f"rsa{bits}_root{r}"]["d1"]["chain"][0] + ".der"))
+            cb.set_root_key_hash(r, other)
+            read()
+
+
 def history_steps(t: dict) -> list:
     """Steps that apply to a mixin composition (one length-relevant member each)."""
     if dev_facts(t)["kind"] != "ivt":
@@ -942,7 +1003,7 @@ def history_steps(t: dict) -> list:
     if "hmackey" in names:
         out.append("hmac_key")
     if has(t, "CertBlockV1"):
-        out.append("cert_block_v1")
+        out += ["cert_block_v1"] + list(STEPWISE)
     if has(t, "CertBlockV21"):
         out.append("cert_block_v21")
     return out
@@ -954,7 +1015,7 @@ def execute_history(case: dict, wd: str, seed: int) -> dict:
     from spsdk.exceptions import SPSDKError
 
     step = case["hist"]
-    dep, attrs = HISTORY_STEPS[step]
+    dep, attrs = HISTORY_STEPS.get(step) or (STEPWISE[step], ())
     case_b = dict(case, opts=dict(case.get("opts", {}), **dep))
     if step == "app":
         case_b["len"] = case.get("len2", 0x200)
@@ -967,15 +1028,23 @@ def execute_history(case: dict, wd: str, seed: int) -> dict:
     ob: dict[str, Any] = {"cfg": cfg_b, "exp": exp_b, "exp_a": exp_a, "status": "ok", "step": step}
     with det_random(core.short_hash(case)):
         try:
-            obj = build(cfg_a, wd + "-a")
-            ob["img1"] = bytes(obj.export())
-            ob["img1b"] = bytes(obj.export())
-            donor = build(cfg_b, wd + "-b")
             fresh = build(cfg_b, wd + "-b")
-            for a in attrs:
-                setattr(obj, a, getattr(donor, a))
+            if step in STEPWISE:
+                obj = build(cfg_b, wd + "-b")
+                stepwise_cert_v1(obj, exp_b["opts"])
+                ob["exp_a"] = exp_b
+            else:
+                obj = build(cfg_a, wd + "-a")
+                ob["img1"] = bytes(obj.export())
+                ob["img1b"] = bytes(obj.export())
+                donor = build(cfg_b, wd + "-b")
+                for a in attrs:
+                    setattr(obj, a, getattr(donor, a))
             ob["image"] = bytes(obj.export())
+            ob["rkth"] = obj.rkth
             ob["fresh"] = bytes(fresh.export())
+            if step in STEPWISE:
+                ob["img1"] = ob["img1b"] = ob["fresh"]
         except SPSDKError as e:
             ob["status"] = "rejected"
             ob["reject"] = _exc(e)
